@@ -393,7 +393,7 @@ func (s *session) SignalConnectionClose(params connection.DisconnectParams) {
 			// a Will is published like a PUBLISH of its client: with RETAIN set it is also stored as
 			// the retained message of its topic (see SignalPublish)
 			if s.will.Retain() {
-				if err := s.messenger.Retain(s.will); err != nil {
+				if err := s.messenger.Retain(retainedWill(s.will)); err != nil {
 					s.log.Error("Retain will message", zap.String("ClientID", s.id), zap.Error(err))
 				}
 			}
@@ -436,4 +436,15 @@ func (s *session) SignalConnectionClose(params connection.DisconnectParams) {
 	s.sessionOffline(s.id, state)
 
 	s.stopReq.Do(func() {})
+}
+
+// retainedWill is what becomes the retained message of a Will's topic: a PUBLISH with the properties a
+// PUBLISH can carry. The Will itself still holds what came in CONNECT for it only (Will Delay Interval):
+// stored as it is, it could not be decoded again after a restart, and the retained message was lost
+func retainedWill(will *mqttp.Publish) *mqttp.Publish {
+	if p, err := will.Clone(will.Version()); err == nil {
+		return p
+	}
+
+	return will
 }
